@@ -345,11 +345,11 @@ pub fn c08(tier: Tier) -> i32 {
                 else if d4 && !rooted_rep {
                     Some("nested-tree-position".to_string())
                 }
-                else if lists_sep {
-                    Some("separator-in-class-is-invariant-text".to_string())
-                }
                 else if rooted_rep {
                     Some("partition-rooted-branch".to_string())
+                }
+                else if lists_sep {
+                    Some("separator-in-class-is-invariant-text".to_string())
                 }
                 else if sole_rooted_tree && !p.starts_with('/') {
                     Some("sole-rooted-tree-matches-relative".to_string())
